@@ -17,14 +17,15 @@ META = {
             "(KnownClass = a cont() without an unanswered event: C17_full_statement_refuted_repaired shows a stale park token still hangs the re-run). "
             "C17_rerun_terminates_refuted / C17_full_statement_refuted_literal: the code as it is hangs (final send into the full channel during join; "
             "witness replayed on the real threads every run); C17_literal_safety: the safety clauses the unrepaired code does satisfy. "
-            "Correspondence on every run: all complete schedules of the model with a bounded number of preemptions for 11 command histories over "
-            "two grammars plus random histories/schedules are forced on the real DebuggerContext threads through the yield points of "
+            "Correspondence on every run: all complete schedules of the model with a bounded number of preemptions for 16 command histories over "
+            "three grammars (one visiting SOI, ASCII_DIGIT, ANY, NEWLINE, EOI with breakpoints on those names) plus random histories/schedules are forced on the real DebuggerContext threads through the yield points of "
             "hooks/C17-yield-points.patch; the sequence of control points reached, the events received, cont()/run() results and termination "
             "(watchdog) must equal the extracted model's; a specification oracle independent of the model checks the received events against the "
-            "breakpoint-filtered entry list of a plain pest_vm parse.",
+            "breakpoint-filtered list of rule visits (built-in rules included) that a listener-free walk of the optimized grammar produces, and that "
+            "breakpoint edits issued while the parse is stopped return (C17_breakpoint_edits_never_block: the Mutex is modelled with explicit acquire/release steps).",
     "note": "Trusted: Coq kernel; extraction (ExtrOcamlBasic only); harness/runner/driver; std::thread::park/unpark, sync_channel, Mutex, "
             "AtomicBool, JoinHandle by documented meaning (no spurious wake-ups, SeqCst everywhere); the parse abstracted to its listener-call "
-            "list (entries, abort-panics flags) taken from a plain pest_vm run; the controller modelled as debugger/src/main.rs uses the API "
+            "list (entries from a listener-free walk of the optimized grammar, cross-checked with a plain pest_vm listener run; abort-panics flags from pest_vm); the controller modelled as debugger/src/main.rs uses the API "
             "(fresh sync_channel(1) per run, previous receiver kept until run() returned Ok). After an abort the VM may panic inside vm.parse "
             "(parser_state.rs queue[index] on the fresh ParserState the VM returns): modelled (PDead, run() = PreviousRunPanic, new session not started), reported as a finding.",
     "design_ref": "DESIGN.md section 3, C17; section 4 row 12",
@@ -200,13 +201,19 @@ def run(tier, seed, replay=None):
         log("note: in %d forced schedules the parsing thread panicked after the listener's abort (vm.parse: fresh ParserState from the abort, "
             "parser_state.rs queue[index]); run() then returns PreviousRunPanic and does not start the new session (modelled: PDead/ORunPanic)"
             % stats["abort_panics"])
+    if "#ENTRYDIFF" in ent:
+        log("note: the VM's listener is not called for exactly the rule visits of the grammar walk (%s)" % ", ".join(
+            l.split("\t")[1] for l in ent.split("\n") if l.startswith("#ENTRYDIFF")))
+        if not spec_m and not model_m:
+            res.violation("pest_vm's listener calls differ from the rule visits of the parse (grammar walk), but no forced schedule showed a wrong delivery",
+                          {"theorem_or_correspondence": "C17 correspondence: listener calls vs grammar walk", "log": ent[-1500:]}, no_failing_input=True)
     proof_violation(bool(spec_m))
 
     res.coverage.update({
         "evaluations": stats.get("evaluations", 0),
         "distinct_nontrivial": stats.get("distinct_nontrivial", 0),
-        "rule": "every complete schedule (run until no thread is enabled) of the extracted model with <= %d preemptions for 11 command histories "
-                "over 2 grammars (ident_list on 'a b': 11 listener calls, Eof; r on 'xz': 4 calls, Error), capacity 1, plus %d random histories "
+        "rule": "every complete schedule (run until no thread is enabled) of the extracted model with <= %d preemptions for 16 command histories "
+                "over 3 grammars (ident_list on 'a b': 11 rule visits, Eof; r on 'xz': 4 visits, Error; line on '7 x\\n': 11 visits incl. SOI/ASCII_DIGIT/ANY/NEWLINE/EOI, Eof), capacity 1, plus %d random histories "
                 "(3-12 commands, random breakpoint sets, capacity 1 or 2) with random complete schedules; non-trivial = the parsing thread takes "
                 "steps and the history contains a cont or a re-run; distinct by (history, schedule)" % (bound, nrandom),
         "exhaustive": True,
